@@ -447,7 +447,8 @@ fn configs(tier: Tier) -> Vec<Cfg> {
     let thorough = tier == Tier::Thorough;
     let bs: Vec<Option<u32>> = if thorough { vec![None, Some(0), Some(3)] } else { vec![None, Some(3)] };
     let es: Vec<Option<u32>> = if thorough { vec![None, Some(5), Some(100)] } else { vec![None, Some(5)] };
-    let lcss: Vec<Option<Vec<u32>>> = if thorough { vec![None, Some(vec![1]), Some(vec![2]), Some(vec![1, 3])] } else { vec![None, Some(vec![2]), Some(vec![1, 3])] };
+    // (ids also in descending order and repeated on the command line)
+    let lcss: Vec<Option<Vec<u32>>> = if thorough { vec![None, Some(vec![1]), Some(vec![2]), Some(vec![1, 3]), Some(vec![3, 1]), Some(vec![2, 3, 1, 2])] } else { vec![None, Some(vec![2]), Some(vec![1, 3]), Some(vec![3, 2, 1, 3])] };
     let eacs: Vec<usize> = if thorough { vec![0, 1, 2, 3] } else { vec![0, 2, 3] };
     let ffiles = [0usize, 1, 2, 3];
     let sorts = [false, true];
@@ -499,7 +500,7 @@ impl Prop for C14 {
         Meta {
             id: "C14",
             level: "exploration",
-            rule: "full product of adlt convert options against the binary built from the working tree: -b {-,0,3} x -e {-,5,100} x --lcs {-,{1},{2},{1,3}} x --eac {-,ECU1,:AP1,'ECU2:AP2:CT2,ECU1::CT1'} x -f {-, DLF file (positive APID + negative CTID), dlt-convert list, DLF file with an additional enabled marker and event filter} x --sort x style/-o {-a,-x,-s with and without -o, -o alone} x every permutation of four generated input files (ECU1 with two boots and garbage between messages, ECU2, a continuation file of ECU1, a file carrying both ECUs interleaved in time) + the first file named twice + every -o combination without filter options once more onto a target path that holds a longer, older export (quick: a 2-3 valued sub-product). Oracle computed in the harness from the generated messages: merged index order = global reception order, lifecycle ids = library detector on the merged stream renumbered as a fresh process counts, filters by their stated meaning (--eac parsed independently); printed indices = expected selection, each once, ascending when unsorted, ascii lines show the message; the -o file re-reads (library iterator, nothing skipped) to exactly the selected messages; identical for every file-argument order. Non-trivial = any selecting option set.".into(),
+            rule: "full product of adlt convert options against the binary built from the working tree: -b {-,0,3} x -e {-,5,100} x --lcs {-,{1},{2},{1,3},{3,1},{2,3,1,2}} x --eac {-,ECU1,:AP1,'ECU2:AP2:CT2,ECU1::CT1'} x -f {-, DLF file (positive APID + negative CTID), dlt-convert list, DLF file with an additional enabled marker and event filter} x --sort x style/-o {-a,-x,-s with and without -o, -o alone} x every permutation of four generated input files (ECU1 with two boots and garbage between messages, ECU2, a continuation file of ECU1, a file carrying both ECUs interleaved in time) + the first file named twice + every -o combination without filter options once more onto a target path that holds a longer, older export (quick: a 2-3 valued sub-product). Oracle computed in the harness from the generated messages: merged index order = global reception order, lifecycle ids = library detector on the merged stream renumbered as a fresh process counts, filters by their stated meaning (--eac parsed independently); printed indices = expected selection, each once, ascending when unsorted, ascii lines show the message; the -o file re-reads (library iterator, nothing skipped) to exactly the selected messages; identical for every file-argument order. Non-trivial = any selecting option set.".into(),
             assumptions: vec!["one generated input set (20 messages, 4 files); lifecycle ids of the CLI are assumed to count from 1 in creation order in a fresh process".into()],
             budget_s: (150, 1500),
             workers: 1,
